@@ -105,6 +105,8 @@ def build():
         if pid not in CLAIMED:
             continue
         ref, text, note, tech = CLAIMED[pid]
+        if pid in ('C01', 'C02', 'C04', 'C05'):
+            text += ' The core families are also rendered into JavaScript and run through rbql-js query_table (rbql-js/rbql.js is an anchor of this property; C19 runs all families), and a random cross product of every query kind x join x fault plan (tlc -simulate, seeded by VERIF_SEED) is replayed in both tiers.'
         checks.append({
             'property_id': pid,
             'quick_cmd': './check %s --tier quick' % pid,
@@ -134,7 +136,7 @@ def build():
         ],
         'checks': checks,
         'not_applicable': [{'property_id': p, 'reason': PENDING_REASON} for p in ALL if p not in CLAIMED],
-        'notes': 'Single entry point ./check <id> [--tier quick|thorough] [--replay path]. Exit 0 held / 1 VIOLATION / 2 machinery failure (an exception or hang INSIDE the implementation during a check is a VIOLATION). known_findings.jsonl lists fixed defects and recorded findings. ./check EXT runs the extensions of the specification beyond the listed properties (DESIGN 11.1; EXTENSION-MISMATCH, not a claimed property). spec/README.md + spec/cfg/: every specification can be model-checked by hand. seeded/ (82 seeded breaking changes) and controls/ (24 property-preserving changes) are the evaluation of the checks themselves.',
+        'notes': 'Single entry point ./check <id> [--tier quick|thorough] [--replay path]. Exit 0 held / 1 VIOLATION / 2 machinery failure (an exception or hang INSIDE the implementation during a check is a VIOLATION). known_findings.jsonl lists fixed defects and recorded findings. ./check EXT runs the extensions of the specification beyond the listed properties (DESIGN 11.1; EXTENSION-MISMATCH, not a claimed property). spec/README.md + spec/cfg/: every specification can be model-checked by hand. seeded/ (122 seeded breaking changes from independent sub-agents, with REGRESSION.json) and controls/ (24 property-preserving changes) are the evaluation of the checks themselves.',
     }
     return man
 
